@@ -116,7 +116,13 @@ func (v *Inv) outerDraws() []Draw {
 func (v *Inv) siteKey() string {
 	for _, it := range v.Intents {
 		if it.Fatal || it.Panic {
-			return fmt.Sprintf("%s@%d/%s", it.Kind, it.Site, it.Where)
+			// the call stack: kind (which T method / panic statement), site function, and the kind of callback
+			// it was reached through - two actions running the same code have the same call stack
+			where := it.Where
+			if i := strings.Index(where, ":"); i >= 0 {
+				where = where[:i]
+			}
+			return fmt.Sprintf("%s@%d/%s", it.Kind, it.Site, where)
 		}
 	}
 	if len(v.Intents) > 0 {
@@ -323,10 +329,12 @@ const (
 	fkError
 	fkErrorf
 	fkFail
+	fkErrorEmpty  // t.Error() without arguments
+	fkErrorfEmpty // t.Errorf("")
 	nFailKinds
 )
 
-var failKindNames = []string{"panic-string", "panic-error", "panic-struct", "panic-nil", "rt-index", "rt-nilmap", "rt-div0", "Fatal", "Fatalf", "FailNow", "Error", "Errorf", "Fail"}
+var failKindNames = []string{"panic-string", "panic-error", "panic-struct", "panic-nil", "rt-index", "rt-nilmap", "rt-div0", "Fatal", "Fatalf", "FailNow", "Error", "Errorf", "Fail", "Error-empty", "Errorf-empty"}
 
 func kindFatal(k int) bool { return k >= fkFatal && k <= fkFailNow }
 func kindPanic(k int) bool { return k <= fkDiv0 }
@@ -361,6 +369,8 @@ func expectedMsg(k int, msg string) string {
 		return "(*T).FailNow() called"
 	case fkFail:
 		return "(*T).Fail() called"
+	case fkErrorEmpty, fkErrorfEmpty:
+		return ""
 	}
 	return msg
 }
@@ -400,6 +410,10 @@ func raise(x *X, t *rapid.T, k int, site int, msg string) {
 		t.Errorf("%s", msg)
 	case fkFail:
 		t.Fail()
+	case fkErrorEmpty:
+		t.Error()
+	case fkErrorfEmpty:
+		t.Errorf("")
 	}
 }
 
@@ -625,6 +639,10 @@ func (x *X) exec(steps []Step) {
 							x.t.Error(msg)
 						case fkErrorf:
 							x.t.Errorf("%s", msg)
+						case fkErrorEmpty:
+							x.t.Error()
+						case fkErrorfEmpty:
+							x.t.Errorf("")
 						default:
 							x.t.Fail()
 						}
